@@ -7,9 +7,11 @@ CONSTANTS
   Extras = FALSE
   Emit = FALSE
   SharedTokenCache = FALSE
+  StaleSnapshot = FALSE
 SPECIFICATION Spec
 INVARIANT IdsUnique
 PROPERTY Isolation
 PROPERTY DocLocal
+PROPERTY WriteBack
 PROPERTY StaleOnlyAfterWrite
 CHECK_DEADLOCK FALSE
